@@ -173,7 +173,7 @@ impl Prop for C15 {
         ]
     }
     fn run(&self, ctx: &Ctx) {
-        let cases = ctx.tier.pick(4_000u32, 120_000u32);
+        let cases = ctx.tier.pick(4_000u32, 100_000u32);
         ctx.run_bytes("seq", cases, 400, seq_outcome);
     }
     fn replay(&self, ctx: &Ctx, _kind: &str, payload: &Value) -> Outcome {
